@@ -17,14 +17,26 @@ import (
 	"google.golang.org/grpc/metadata"
 
 	"github.com/smart-core-os/sc-golang/pkg/resource"
+	"github.com/smart-core-os/sc-golang/pkg/trait/accesspb"
 	"github.com/smart-core-os/sc-golang/pkg/trait/airqualitysensorpb"
 	"github.com/smart-core-os/sc-golang/pkg/trait/airtemperaturepb"
+	"github.com/smart-core-os/sc-golang/pkg/trait/bookingpb"
+	"github.com/smart-core-os/sc-golang/pkg/trait/electricpb"
 	"github.com/smart-core-os/sc-golang/pkg/trait/energystoragepb"
+	"github.com/smart-core-os/sc-golang/pkg/trait/enterleavesensorpb"
 	"github.com/smart-core-os/sc-golang/pkg/trait/fanspeedpb"
+	"github.com/smart-core-os/sc-golang/pkg/trait/hailpb"
 	"github.com/smart-core-os/sc-golang/pkg/trait/lightpb"
+	"github.com/smart-core-os/sc-golang/pkg/trait/metadatapb"
+	"github.com/smart-core-os/sc-golang/pkg/trait/meterpb"
+	"github.com/smart-core-os/sc-golang/pkg/trait/modepb"
+	"github.com/smart-core-os/sc-golang/pkg/trait/occupancysensorpb"
 	"github.com/smart-core-os/sc-golang/pkg/trait/onoffpb"
+	"github.com/smart-core-os/sc-golang/pkg/trait/openclosepb"
+	"github.com/smart-core-os/sc-golang/pkg/trait/parentpb"
 	"github.com/smart-core-os/sc-golang/pkg/trait/presspb"
 	"github.com/smart-core-os/sc-golang/pkg/trait/publicationpb"
+	"github.com/smart-core-os/sc-golang/pkg/trait/vendingpb"
 	"github.com/smart-core-os/sc-golang/pkg/trait/wastepb"
 )
 
@@ -46,7 +58,10 @@ type adapterSub struct {
 
 func f32(v float32) *float32 { return &v }
 
-var adapterNames = []string{"onoff", "light", "press", "waste", "airtemperature", "airquality", "energystorage", "fanspeed", "publications", "publication"}
+var adapterNames = []string{"onoff", "light", "press", "waste", "airtemperature", "airquality", "energystorage", "fanspeed", "publications", "publication",
+	// every other Pull… adapter of a trait model (model level)
+	"occupancy", "meter", "access", "demand", "activemode", "modes", "enterleave", "consumables", "inventory", "bookings",
+	"modevalues", "positions", "metadata", "allmetadata", "hails", "children"}
 
 func openAdapter(name string, ctx context.Context, opts ...resource.ReadOption) *adapterSub {
 	switch name {
@@ -111,6 +126,114 @@ func openAdapter(name string, ctx context.Context, opts ...resource.ReadOption) 
 		ch := m.PullPublications(ctx, opts...)
 		return &adapterSub{func() bool { _, ok := <-ch; return ok }, write}
 	}
+	return openAdapterMore(name, ctx, opts...)
+}
+
+// openAdapterMore: the Pull… adapters of the remaining trait models
+func openAdapterMore(name string, ctx context.Context, opts ...resource.ReadOption) *adapterSub {
+	switch name {
+	case "occupancy":
+		m := occupancysensorpb.NewModel()
+		ch := m.PullOccupancy(ctx, opts...)
+		return &adapterSub{func() bool { _, ok := <-ch; return ok }, func(i int) {
+			m.SetOccupancy(&traits.Occupancy{PeopleCount: int32(1 + i)})
+		}}
+	case "meter":
+		m := meterpb.NewModel()
+		ch := m.PullMeterReadings(ctx, opts...)
+		return &adapterSub{func() bool { _, ok := <-ch; return ok }, func(i int) {
+			m.UpdateMeterReading(&traits.MeterReading{Usage: float32(1 + i)})
+		}}
+	case "access":
+		m := accesspb.NewModel()
+		ch := m.PullAccessAttempts(ctx, opts...)
+		return &adapterSub{func() bool { _, ok := <-ch; return ok }, func(i int) {
+			m.UpdateLastAccessAttempt(&traits.AccessAttempt{Reason: fmt.Sprint("r", i)})
+		}}
+	case "demand":
+		m := electricpb.NewModel()
+		ch := m.PullDemand(ctx, opts...)
+		return &adapterSub{func() bool { _, ok := <-ch; return ok }, func(i int) {
+			m.UpdateDemand(&traits.ElectricDemand{Current: float32(1 + i)})
+		}}
+	case "activemode":
+		m := electricpb.NewModel()
+		a, _ := m.CreateMode(&traits.ElectricMode{Title: "a"})
+		b, _ := m.CreateMode(&traits.ElectricMode{Title: "b"})
+		ch := m.PullActiveMode(ctx, opts...)
+		return &adapterSub{func() bool { _, ok := <-ch; return ok }, func(i int) {
+			if a == nil || b == nil {
+				return
+			}
+			m.ChangeActiveMode([]string{a.Id, b.Id}[i%2])
+		}}
+	case "modes":
+		m := electricpb.NewModel()
+		ch := m.PullModes(ctx, opts...)
+		return &adapterSub{func() bool { _, ok := <-ch; return ok }, func(i int) {
+			m.CreateMode(&traits.ElectricMode{Title: fmt.Sprint("t", i)})
+		}}
+	case "enterleave":
+		m := enterleavesensorpb.NewModel()
+		ch := m.PullEnterLeaveEvents(ctx, opts...)
+		return &adapterSub{func() bool { _, ok := <-ch; return ok }, func(i int) {
+			m.CreateEnterLeaveEvent(&traits.EnterLeaveEvent{Direction: traits.EnterLeaveEvent_Direction(1 + i%2)})
+		}}
+	case "consumables", "inventory":
+		m := vendingpb.NewModel()
+		if name == "consumables" {
+			ch := m.PullConsumables(ctx, opts...)
+			return &adapterSub{func() bool { _, ok := <-ch; return ok }, func(i int) {
+				m.CreateConsumable(&traits.Consumable{Name: fmt.Sprint("c", i)})
+			}}
+		}
+		ch := m.PullInventory(ctx, opts...)
+		return &adapterSub{func() bool { _, ok := <-ch; return ok }, func(i int) {
+			m.CreateStock(&traits.Consumable_Stock{Consumable: fmt.Sprint("c", i)})
+		}}
+	case "bookings":
+		m := bookingpb.NewModel()
+		ch := m.PullBookings(ctx, opts...)
+		return &adapterSub{func() bool { _, ok := <-ch; return ok }, func(i int) {
+			m.CreateBooking(&traits.Booking{Bookable: fmt.Sprint("b", i)})
+		}}
+	case "modevalues":
+		m := modepb.NewModelModes(&traits.Modes{Modes: []*traits.Modes_Mode{{Name: "m", Values: []*traits.Modes_Value{{Name: "a"}, {Name: "b"}, {Name: "c"}}}}})
+		ch := m.PullModeValues(ctx, opts...)
+		return &adapterSub{func() bool { _, ok := <-ch; return ok }, func(i int) {
+			m.UpdateModeValues(&traits.ModeValues{Values: map[string]string{"m": []string{"b", "c", "a"}[i%3]}})
+		}}
+	case "positions":
+		m := openclosepb.NewModel()
+		ch := m.PullPositions(ctx, opts...)
+		return &adapterSub{func() bool { _, ok := <-ch; return ok }, func(i int) {
+			m.UpdatePositions(&traits.OpenClosePositions{States: []*traits.OpenClosePosition{{OpenPercent: float32(1 + i%90)}}})
+		}}
+	case "metadata":
+		m := metadatapb.NewModel()
+		ch := m.PullMetadata(ctx, opts...)
+		return &adapterSub{func() bool { _, ok := <-ch; return ok }, func(i int) {
+			m.UpdateMetadata(&traits.Metadata{Name: fmt.Sprint("n", i)})
+		}}
+	case "allmetadata":
+		m := metadatapb.NewCollection()
+		ch := m.PullAllMetadata(ctx, opts...)
+		return &adapterSub{func() bool { _, ok := <-ch; return ok }, func(i int) {
+			m.UpdateMetadata(fmt.Sprint("n", i), &traits.Metadata{Name: fmt.Sprint("n", i)}, resource.WithCreateIfAbsent())
+		}}
+	case "hails":
+		m := hailpb.NewModel()
+		ch := m.PullHails(ctx, opts...)
+		return &adapterSub{func() bool { _, ok := <-ch; return ok }, func(i int) {
+			m.CreateHail(&traits.Hail{State: traits.Hail_CALLED})
+		}}
+	case "children":
+		m := parentpb.NewModel()
+		ch := m.PullChildren(ctx, opts...)
+		return &adapterSub{func() bool { _, ok := <-ch; return ok }, func(i int) {
+			m.AddChild(&traits.Child{Name: fmt.Sprint("c", i)})
+		}}
+	}
 	return nil
 }
 
@@ -120,10 +243,14 @@ type fakeStream[R any] struct {
 	ctx      context.Context
 	n        int
 	failFrom int
+	notify   func(n int) // called with the number of the message being sent (single.go)
 }
 
 func (s *fakeStream[R]) Send(*R) error {
 	s.n++
+	if s.notify != nil {
+		s.notify(s.n)
+	}
 	if s.n > s.failFrom {
 		return errors.New("transport is closing")
 	}
@@ -142,7 +269,8 @@ func newFake[R any](ctx context.Context, failFrom int) *fakeStream[R] {
 
 // the traits driven at SERVER level: the model's ModelServer Pull handler (`for change := range model.Pull…(ctx)
 // { stream.Send }`) on a fake stream
-var serverNames = []string{"onoff", "light", "press", "waste", "airtemperature", "airquality", "energystorage", "fanspeed", "publications", "publication"}
+var serverNames = []string{"onoff", "light", "press", "waste", "airtemperature", "airquality", "energystorage", "fanspeed", "publications", "publication",
+	"occupancy", "meter", "access", "demand", "modes"}
 
 // openServer returns the handler call (blocks until the handler returns) and the i-th write on the model behind it
 func openServer(name string, ctx context.Context, failFrom int, uo bool) (run func(), write func(i int)) {
@@ -226,6 +354,45 @@ func openServer(name string, ctx context.Context, failFrom int, uo bool) (run fu
 		return func() {
 			srv.PullPublications(&traits.PullPublicationsRequest{UpdatesOnly: uo}, newFake[traits.PullPublicationsResponse](ctx, failFrom))
 		}, write
+	case "occupancy":
+		m := occupancysensorpb.NewModel()
+		srv := occupancysensorpb.NewModelServer(m)
+		return func() {
+				srv.PullOccupancy(&traits.PullOccupancyRequest{UpdatesOnly: uo}, newFake[traits.PullOccupancyResponse](ctx, failFrom))
+			}, func(i int) {
+				m.SetOccupancy(&traits.Occupancy{PeopleCount: int32(1 + i)})
+			}
+	case "meter":
+		m := meterpb.NewModel()
+		srv := meterpb.NewModelServer(m)
+		return func() {
+				srv.PullMeterReadings(&traits.PullMeterReadingsRequest{UpdatesOnly: uo}, newFake[traits.PullMeterReadingsResponse](ctx, failFrom))
+			}, func(i int) {
+				m.UpdateMeterReading(&traits.MeterReading{Usage: float32(1 + i)})
+			}
+	case "access":
+		m := accesspb.NewModel()
+		srv := accesspb.NewModelServer(m)
+		return func() {
+				srv.PullAccessAttempts(&traits.PullAccessAttemptsRequest{UpdatesOnly: uo}, newFake[traits.PullAccessAttemptsResponse](ctx, failFrom))
+			}, func(i int) {
+				m.UpdateLastAccessAttempt(&traits.AccessAttempt{Reason: fmt.Sprint("r", i)})
+			}
+	case "demand", "modes":
+		m := electricpb.NewModel()
+		srv := electricpb.NewModelServer(m)
+		if name == "demand" {
+			return func() {
+					srv.PullDemand(&traits.PullDemandRequest{UpdatesOnly: uo}, newFake[traits.PullDemandResponse](ctx, failFrom))
+				}, func(i int) {
+					m.UpdateDemand(&traits.ElectricDemand{Current: float32(1 + i)})
+				}
+		}
+		return func() {
+				srv.PullModes(&traits.PullModesRequest{UpdatesOnly: uo}, newFake[traits.PullModesResponse](ctx, failFrom))
+			}, func(i int) {
+				m.CreateMode(&traits.ElectricMode{Title: fmt.Sprint("t", i)})
+			}
 	}
 	return nil, nil
 }
@@ -315,8 +482,8 @@ func runAdapter(sc Scenario) (out Outcome) {
 	// writers stay active while the consumer receives, stops, and after it stopped
 	select {
 	case <-stopped:
-	case <-time.After(bound):
-		// the consumer waits for events that only the writes below produce
+	case <-time.After(30 * time.Millisecond):
+		// the consumer waits for events that only the writes below produce (no seed: an empty collection, updates-only)
 	}
 	for i := 0; i < ac.Writes+ac.StopAfter && i < 64; i++ {
 		done := make(chan struct{})
@@ -348,7 +515,7 @@ func runAdapter(sc Scenario) (out Outcome) {
 	}
 	o.eval(monShutdown, "goroutines-baseline/trait/"+key, true)
 	if ok, left, _ := waitBaseline(bound); !ok {
-		o.violate(monShutdown, "C10/trait/"+ac.Level+"/goroutine-leak",
+		o.violate(monShutdown, "C10/trait/"+ac.Trait+"/"+ac.Level+"/goroutine-leak",
 			"goroutines started for a trait-level subscription are still alive after its context was cancelled (the consumer had stopped receiving before the cancel)",
 			"no goroutine inside pkg/trait/*, pkg/resource or internal/minibus", censusSummary(left))
 	}
